@@ -6,6 +6,7 @@ import random
 import sys
 import warnings
 
+import numpy as onp
 import autograd.numpy as anp
 from autograd import grad, make_jvp
 from autograd.extend import primitive, defvjp, defjvp
@@ -28,6 +29,17 @@ def F(n, x):
 
 defvjp(F, None, lambda ans, n, x: lambda g: g * F(n + 1, x))
 defjvp(F, None, lambda g, ans, n, x: g * F(n + 1, x))
+
+
+@primitive
+def rawmul(a, b):
+    # a primitive whose raw function only accepts plain numbers (it goes through NumPy's C ufunc,
+    # which cannot multiply tracer objects): the wrapper must have unboxed every level before calling it
+    return float(onp.multiply(a, b))
+
+
+defvjp(rawmul, lambda ans, a, b: lambda g: b * g, lambda ans, a, b: lambda g: a * g)
+defjvp(rawmul, lambda g, ans, a, b: g * b, lambda g, ans, a, b: a * g)
 
 
 @primitive
@@ -74,6 +86,8 @@ def prim2(p, a, b):
         return a - b
     if p == "mul":
         return a * b
+    if p == "rmul":
+        return rawmul(a, b)
     raise ValueError(p)
 
 
@@ -132,7 +146,7 @@ def gen(rng, depth, nvars, opts, ddepth=0):
             return ["var", i]
         return ["const", rng.choice([-2, -1, 1, 2, 3])]
     if r < 0.42:
-        return ["app2", rng.choice(["add", "sub", "mul", "mul", "mul"]),
+        return ["app2", rng.choice(["add", "sub", "mul", "mul", "rmul", "rmul"]),
                 gen(rng, depth - 1, nvars, opts, ddepth), gen(rng, depth - 1, nvars, opts, ddepth)]
     if r < 0.56:
         ps = ["neg", ["F", rng.randint(0, 5)], ["F", rng.randint(2, 6)]]
@@ -158,6 +172,21 @@ def gen(rng, depth, nvars, opts, ddepth=0):
             return ["fail"]
         return ["try", gen(rng, depth - 1, nvars, opts, ddepth), gen(rng, depth - 1, nvars, opts, ddepth)]
     return ["const", rng.choice([1, 2])]
+
+
+def gen_fault_pattern(rng, opts):
+    """an enclosing differentiation whose body catches a failure raised inside an inner
+    differentiation and then differentiates again (the pattern that exposes stale trace-id state)"""
+    ops = opts.get("ops", ["grad", "deriv"])
+    failing_inner = [rng.choice(ops), ["app2", "mul", ["fail"] if rng.random() < 0.5 else
+                                       ["app2", "add", ["var", 0], ["fail"]], ["var", 0]], ["const", rng.choice([1, 2])]]
+    if rng.random() < 0.4:     # the failure happens one level deeper
+        failing_inner = [rng.choice(ops), ["app2", "mul", ["var", 0], failing_inner], ["var", 0]]
+    recover = [rng.choice(ops), gen(rng, 3, 2, dict(opts, fail=False), 2), rng.choice([["var", 0], ["const", 3], ["const", 2]])]
+    body = ["app2", rng.choice(["mul", "add"]), ["var", 0], ["try", failing_inner, recover]]
+    if rng.random() < 0.5:
+        body = ["app2", "mul", body, gen(rng, 2, 1, dict(opts, fail=False), 1)]
+    return [rng.choice(ops), body, ["const", rng.choice([1, 2, 3])]]
 
 
 def ddepth_of(e):
@@ -265,7 +294,10 @@ def main():
     tries = 0
     while len(progs) < cfg["n"] and tries < cfg["n"] * 30:
         tries += 1
-        e = gen(rng, rng.randint(3, cfg.get("depth", 6)), 0, opts)
+        if opts.get("fail") and rng.random() < 0.25:
+            e = gen_fault_pattern(rng, opts)
+        else:
+            e = gen(rng, rng.randint(3, cfg.get("depth", 6)), 0, opts)
         if ddepth_of(e) < cfg.get("min_ddepth", 1) or size_of(e) > cfg.get("max_size", 40):
             continue
         progs.append(e)
